@@ -30,7 +30,9 @@ def tlbTypes : List (String × Codec) := [
   ("ValidatorInfo", validatorInfo), ("KeyExtBlkRef", keyExtBlkRef), ("KeyMaxLt", keyMaxLt),
   ("OldMcBlocksInfo", oldMcBlocksInfo), ("Counters", counters), ("CreatorStats", creatorStats),
   ("BlockCreateStats", blockCreateStats), ("ConfigParams", configParams), ("McStateExtra", mcStateExtra),
-  ("McBlockExtra", mcBlockExtra), ("ShardFees", shardFees), ("ShardStateUnsplit", shardStateUnsplit), ("ShardState", shardState), ("BlockExtra", blockExtra), ("Block", block)]
+  ("McBlockExtra", mcBlockExtra), ("ShardFees", shardFees), ("ShardStateUnsplit", shardStateUnsplit), ("ShardState", shardState), ("BlockExtra", blockExtra), ("Block", block),
+  -- `^(Message Any)` as the parsers meet it (Message closes its cell, so it is exercised through a reference)
+  ("MessageRef", ref message)]
 
 def jsonStr (s : String) : String := "\"" ++ s ++ "\""
 
